@@ -1,16 +1,17 @@
 #!/bin/bash
 # tools/seed_matrix.sh [seed-id ...] : run each seeded change's property check (quick tier) against a scratch worktree
 # with the change applied (never /repo itself) and write /verif/seeded/RESULTS.tsv  (seed, property, rc, summary line).
-cd /verif
+HERE=$(dirname "$(dirname "$(realpath "$0")")")
+cd "$HERE"
 WT=$(mktemp -d /tmp/seedmx-XXXX); rmdir $WT
 git -C /repo worktree add -q --detach $WT HEAD || exit 3
 trap 'git -C /repo worktree remove --force $WT; rm -rf $WT' EXIT INT TERM
-OUT=/verif/seeded/RESULTS.tsv
+OUT=${MATRIX_OUT:-$HERE/seeded/RESULTS.tsv}
 [ $# -eq 0 ] && : > $OUT
 SEEDS=${@:-$(ls seeded | grep -v RESULTS)}
 for s in $SEEDS; do
   prop=$(python3 -c "import json;print(json.load(open('seeded/$s/meta.json'))['property'])")
-  git -C $WT checkout -q -- . ; git -C $WT apply /verif/seeded/$s/patch.diff || { echo -e "$s\t$prop\tAPPLY-FAILED" >> $OUT; continue; }
+  git -C $WT checkout -q -- . ; git -C $WT apply $HERE/seeded/$s/patch.diff || { echo -e "$s\t$prop\tAPPLY-FAILED" >> $OUT; continue; }
   VERIF_REPO=$WT VERIF_JOBS=${VERIF_JOBS:-16} timeout 2400 ./check $prop --tier quick > /tmp/mx_$s.log 2>&1; rc=$?
   line=$(grep -E "^== $prop:" /tmp/mx_$s.log | tail -1)
   echo -e "$s\t$prop\trc=$rc\t$line" >> $OUT
